@@ -47,6 +47,7 @@ fn exec(ctx: &mut Ctx, line: &str) -> String {
         "smetricw" => fam_smetric::exec(ctx, &mut t, true),
         "geom" => fam_geom::exec_geom(ctx, &mut t),
         "own" => fam_geom::exec_own(ctx, &mut t),
+        "ownc" => fam_geom::exec_ownc(ctx, &mut t),
         "py" => fam_py::exec(ctx, &mut t),
         _ => format!("UNKNOWN-FAMILY {fam}"),
     }
